@@ -114,3 +114,130 @@ def aux_state(h, res):
     if getattr(h, "aux", None):
         res.bounded_only = True
         res.note(f"auxiliary state {h.aux}: pre-states are built through the public API (concrete, no opaque segments); level for this run: bounded")
+
+
+# ------------------------------------------------------------------------------- size thresholds named by the tree itself
+SIZE_CAP = 130
+
+
+def _fold(node):
+    """value of a constant numeric expression (literals combined by + - * // % ** << >> and unary minus), else None"""
+    import ast
+    if isinstance(node, ast.Constant) and isinstance(node.value, (int, float)) and not isinstance(node.value, bool):
+        return node.value
+    if isinstance(node, ast.UnaryOp) and isinstance(node.op, (ast.USub, ast.UAdd)):
+        v = _fold(node.operand)
+        return None if v is None else (-v if isinstance(node.op, ast.USub) else v)
+    if isinstance(node, ast.BinOp):
+        a, b = _fold(node.left), _fold(node.right)
+        if a is None or b is None:
+            return None
+        try:
+            if isinstance(node.op, ast.Add):
+                return a + b
+            if isinstance(node.op, ast.Sub):
+                return a - b
+            if isinstance(node.op, ast.Mult):
+                return a * b
+            if isinstance(node.op, ast.FloorDiv):
+                return a // b
+            if isinstance(node.op, ast.Div):
+                return a / b
+            if isinstance(node.op, ast.Mod):
+                return a % b
+            if isinstance(node.op, ast.Pow) and abs(b) <= 16 and abs(a) <= 64:
+                return a ** b
+            if isinstance(node.op, ast.LShift) and isinstance(a, int) and isinstance(b, int) and 0 <= b <= 16:
+                return a << b
+            if isinstance(node.op, ast.RShift) and isinstance(a, int) and isinstance(b, int) and 0 <= b <= 64:
+                return a >> b
+        except (ZeroDivisionError, OverflowError, TypeError, ValueError):
+            return None
+    return None
+
+
+_SIZE_CALLS = {"range", "islice", "deque", "setrecursionlimit", "min", "max", "divmod", "batched", "nlargest", "nsmallest", "accumulate", "repeat", "combinations", "permutations"}
+
+
+def harvested_sizes(src, exclude=("edgegraph/version.py",)):
+    """Numbers >= 3 that the tree itself uses where a *size* can be meant: operands of comparisons, slice bounds, arguments of range / islice / deque(maxlen=) / min / max ..., right operands of % and //, module- and class-level
+    numeric constants, numeric defaults of parameters of private functions.  A tree that switches algorithm, cuts off, chunks or
+    indexes once a collection passes some size names that size in its own source (possibly as a folded constant expression);
+    graphs whose collections sit just below, at and just above it are the input class that reaches the switch.  -> (sorted sizes
+    within SIZE_CAP, sizes beyond the cap)"""
+    import ast
+    cached = getattr(src, "_verif_sizes", None)
+    if cached is not None:
+        return cached
+    found = {}
+
+    def take(node, rel, why):
+        v = _fold(node)
+        if v is None:
+            return
+        if isinstance(v, float):
+            if v != v or v in (float("inf"), float("-inf")):
+                return
+            v = int(v)
+        v = abs(v)
+        if v >= 3:
+            found.setdefault(v, f"{rel}:{getattr(node, 'lineno', '?')} ({why})")
+
+    for rel in src.relpaths():
+        if rel in exclude:
+            continue
+        try:
+            tree = src.tree(rel)
+        except (SourceError, OSError):
+            continue
+        for node in ast.walk(tree):
+            if isinstance(node, ast.Compare):
+                for side in [node.left] + list(node.comparators):
+                    take(side, rel, "comparison")
+            elif isinstance(node, ast.Slice):
+                for b in (node.lower, node.upper, node.step):
+                    if b is not None:
+                        take(b, rel, "slice")
+            elif isinstance(node, ast.Call):
+                fname = node.func.attr if isinstance(node.func, ast.Attribute) else getattr(node.func, "id", None)
+                if fname in _SIZE_CALLS:
+                    for a in list(node.args) + [k.value for k in node.keywords]:
+                        take(a, rel, f"{fname}()")
+                else:
+                    for k in node.keywords:
+                        if k.arg and any(t in k.arg.lower() for t in ("max", "min", "limit", "size", "depth", "len", "count", "chunk", "thresh", "cap")):
+                            take(k.value, rel, f"{k.arg}=")
+            elif isinstance(node, ast.BinOp) and isinstance(node.op, (ast.Mod, ast.FloorDiv)) and _fold(node) is None:
+                take(node.right, rel, "% or //")
+            elif isinstance(node, (ast.Module, ast.ClassDef)):
+                for st in node.body:
+                    if isinstance(st, (ast.Assign, ast.AnnAssign)) and getattr(st, "value", None) is not None:
+                        vals = st.value.elts if isinstance(st.value, (ast.Tuple, ast.List)) else [st.value]
+                        for v in vals:
+                            take(v, rel, "module/class-level constant")
+            elif isinstance(node, (ast.FunctionDef, ast.AsyncFunctionDef, ast.Lambda)):
+                private = isinstance(node, ast.Lambda) or node.name.startswith("_")
+                if private:
+                    for d in list(node.args.defaults) + [d for d in node.args.kw_defaults if d is not None]:
+                        take(d, rel, "default of a private function's parameter")
+    small = sorted(v for v in found if v <= SIZE_CAP)
+    big = sorted(v for v in found if v > SIZE_CAP)
+    src._verif_sizes = (small, big, found)
+    return src._verif_sizes
+
+
+def scale_sizes(ctx, res=None, default=(9,), thorough_default=(9, 33)):
+    """the collection sizes the scale families are built at: for every harvested size c the sizes c and c + 1 (thorough: also c - 1
+    and 2c + 1), plus default sizes beyond everything the small scopes reach"""
+    small, big, found = harvested_sizes(ctx.src)
+    out = set(thorough_default if ctx.thorough else default)
+    for c in small:
+        out.update((c, c + 1))
+        if ctx.thorough:
+            out.update((c - 1, min(2 * c + 1, SIZE_CAP + 1)))
+    out = sorted(n for n in out if n >= 4)
+    if res is not None:
+        res.extra["scale"] = {"harvested_sizes": {str(c): found[c] for c in small}, "beyond_cap_not_explored": {str(c): found[c] for c in big}, "sizes_explored": out}
+        if big:
+            res.note(f"size constants beyond the cap of {SIZE_CAP} are named by the tree but not explored: " + ", ".join(f"{c} at {found[c]}" for c in big))
+    return out
